@@ -1,5 +1,7 @@
 """C18 — the generated diagram is a faithful picture of the machine."""
+import itertools
 import json
+import re
 import random
 import subprocess
 import warnings
@@ -88,6 +90,36 @@ def expected(spec):
     return sids, init, ext, internal
 
 
+_OPS = re.compile(r"\!(?!=)|\^|\bv\b")
+
+
+def guard_text_means(text, guards):
+    """Does the guard text of an edge label (comma separated entries, each a name or a boolean expression
+    in the library's spelling) MEAN: every cond guard truthy and every unless guard falsy? Decided on the
+    full truth table of the guard names."""
+    names = sorted({g["name"] for g in guards})
+    text = text.strip()
+    if not names:
+        return text == ""
+    if not text:
+        return False
+    entries = [e.strip() for e in text.split(",") if e.strip()]
+    try:
+        codes = [compile(_OPS.sub(lambda m: {"!": " not ", "^": " and ", "v": " or "}[m.group(0)], e).strip(), "<label>", "eval") for e in entries]
+    except SyntaxError:
+        return False
+    for bits in itertools.product([False, True], repeat=len(names)):
+        env = dict(zip(names, bits))
+        want = all(env[g["name"]] for g in guards if g["kind"] == "cond") and not any(env[g["name"]] for g in guards if g["kind"] == "unless")
+        try:
+            got = all(bool(eval(c, {"__builtins__": {}}, dict(env))) for c in codes)  # noqa: S307
+        except Exception:  # noqa: BLE001
+            return False
+        if got != want:
+            return False
+    return True
+
+
 def judge(spec, nodes, edges, current, reading, counters):
     """-> list of (mechanism, detail)"""
     out = []
@@ -116,15 +148,25 @@ def judge(spec, nodes, edges, current, reading, counters):
     # labels: match every external transition to a distinct edge carrying its events and guards
     pool = [(a, b, l) for a, b, l in edges if a != p]
     for t in ext:
-        need = list(t["events"]) + [g["name"] for g in t["guards"]]
-        hit = None
+        hit, wrong_guard = None, None
         for i, (a, b, l) in enumerate(pool):
-            toks = l.replace("\n", " ").replace("\\n", " ").replace("[", " ").replace("]", " ").replace(",", " ").replace("!", " ").split()
-            if a == t["src"] and b == t["dst"] and all(x in toks for x in need):
+            if a != t["src"] or b != t["dst"]:
+                continue
+            text = l.replace("\\n", "\n")
+            head, _, gtext = text.partition("[")
+            if not all(e in head.replace("\n", " ").split() for e in t["events"]):
+                continue
+            if guard_text_means(gtext.rsplit("]", 1)[0] if gtext else "", t["guards"]):
                 hit = i
                 break
+            wrong_guard = l
         if hit is None:
-            out.append(("edge-label", f"{reading}: no edge {t['src']}->{t['dst']} labelled with events {t['events']} and guards {[g['name'] for g in t['guards']]}; labels: {[l for a, b, l in pool if a == t['src'] and b == t['dst']]}"))
+            mech = "edge-label-guards" if wrong_guard is not None else "edge-label"
+            if wrong_guard is not None and t.get("join_guards") and not any(g["kind"] == "cond" for g in t["guards"]):
+                mech = "unless-expression-shown-with-negation-on-first-operand-only"
+            out.append((mech, f"{reading}: no edge {t['src']}->{t['dst']} labelled with events {t['events']} and a guard text meaning "
+                              f"cond={[g['name'] for g in t['guards'] if g['kind'] == 'cond']} unless={[g['name'] for g in t['guards'] if g['kind'] == 'unless']}; "
+                              f"labels: {[l for a, b, l in pool if a == t['src'] and b == t['dst']]}"))
             break
         pool.pop(hit)
     # internal transitions inside their state
@@ -165,6 +207,9 @@ def run_one(rng, counters, violations, sigs, samples):
     from statemachine.contrib.diagram import DotGraphMachine
 
     spec = gen.gen_spec(rng, PROFILE)
+    for g in spec["guards"].values():
+        if g["providers"] == ["sm"] and g["kind"] == "method" and rng.random() < 0.35:
+            g["by_obj"] = True          # the guard function itself is passed as cond= / unless=
     if rng.random() < 0.4:
         c10.assign_values(rng, spec)
     rec = Recorder()
